@@ -278,6 +278,25 @@ def main():
         'namespace Hl7.Gen\nopen Hl7.G\ndef tables : List Tables := [%s]\nend Hl7.Gen\n' % ', '.join(
             'V' + v.replace('.', '_') for v in versions)
     changed += write('All.lean', allf)
+    # guard lists of the table theorems (committed file, never written at run time)
+    try:
+        ex = json.load(open(os.path.join(os.path.dirname(os.path.abspath(__file__)), '..', 'table_exclusions.json')))
+    except FileNotFoundError:
+        ex = {}
+    kn = ['namespace Hl7.Gen.Known\n']
+    segs = ex.get('segments', {})
+    kn.append('def segExcluded (version : String) : List String :=\n')
+    for v in sorted(segs):
+        kn.append('  if version == %s then [%s] else\n' % (q(v), ', '.join(q(n) for n in segs[v])))
+    kn.append('  []\n')
+    kn.append('end Hl7.Gen.Known\n')
+    changed += write('Known.lean', ''.join(kn))
+    # per-version kernel obligations, instantiated from the committed template
+    tpl = open(os.path.join(os.path.dirname(os.path.abspath(__file__)), '..', 'lean', 'templates', 'TableObligations.lean.in'),
+               encoding='utf-8').read()
+    for v in versions:
+        tag = 'V' + v.replace('.', '_')
+        changed += write('Ob%s.lean' % tag, tpl.replace('@TAG@', tag).replace('@VER@', v))
     # stale files
     for fn in os.listdir(OUT):
         if fn.endswith('.lean') and fn not in written:
